@@ -121,7 +121,8 @@ pub fn methods(thorough: bool) -> Vec<Method> {
         if l.iter().filter(|t| **t == Ty::Generic).count() > 1 {
             continue;
         }
-        let variants: Vec<usize> = if thorough { (0..3).collect() } else { vec![li % 3] };
+        // the argument-less method and the one-argument methods come in every kind in both tiers
+        let variants: Vec<usize> = if thorough || l.is_empty() { (0..3).collect() } else { vec![li % 3] };
         for v in variants {
             let kind = kinds[v];
             let n = k;
